@@ -326,7 +326,7 @@ func (d *c17Dealing) combine(r *verifmc.Run, mi int, S []int) {
 			r.Count("qualified_verified_second_signature_of_the_key_shares", 1)
 		}
 		if d.sample != nil && d.sample(mi, S) {
-			r.Sample(map[string]interface{}{"case": caseID, "signature": verifmc.Hex(sig)})
+			d.ov.AddSample(caseID, map[string]interface{}{"case": caseID, "signature": verifmc.Hex(sig)})
 		}
 		return
 	}
@@ -412,7 +412,7 @@ func TestVerifC17_rsa_subsets(t *testing.T) {
 	defer r.Finish()
 	ov := verifmc.NewOrderedViolations(r)
 	defer ov.Flush()
-	maxL := r.Pick(8, 11)
+	maxL := r.Pick(8, 12)
 	r.Rule("1024-bit key fixture x all (l,k) with 2<=l<=maxL, 1<=k<=l x modes {pkcs1v15/unblinded/cached, pss-salt32/blinded-parallel/uncached} x every non-empty subset of the l players " +
 		"x every ordering up to 3 members, else ascending, descending and one rotation: |S|>=k must combine without error to a signature crypto/rsa verifies, |S|<k must not yield a valid signature; " +
 		"non-trivial = distinct (l,k,mode,ordered subset)")
@@ -450,7 +450,7 @@ func TestVerifC17_rsa_modes(t *testing.T) {
 	defer r.Finish()
 	ov := verifmc.NewOrderedViolations(r)
 	defer ov.Flush()
-	maxL := r.Pick(4, 6)
+	maxL := r.Pick(4, 7)
 	r.Rule("1024-bit key fixture x all (l,k), 2<=l<=maxL x paddings {pkcs1v15, pss salt=32, pss salt=auto} x {unblinded, blinded, blinded+parallel} x Deal(cache) in {true,false} " +
 		"x two messages signed one after the other with the same key shares (the second uses the cached exponent) x every non-empty subset, ascending order; non-trivial = distinct (l,k,mode,message,subset)")
 	r.Set("max_l", maxL)
@@ -574,7 +574,7 @@ func TestVerifC17_rsa_params(t *testing.T) {
 	r.Rule("1024-bit key fixture x all (l,k) with 2<=l<=maxL, 1<=k<=l x mode pkcs1v15/unblinded/cached (thorough: also pss-salt32/blinded-parallel/uncached) x structured subsets " +
 		"{first k, last k (both orders), all l, odd players, even players, first k-1 + last, first + last k-1, middle k+1, first k-1 (unqualified)}; l=1 and k=0, k=l+1 are outside the supported range and only observed; " +
 		"non-trivial = distinct (l,k,mode,ordered subset)")
-	r.NotExhaustive("declared sub-alphabet: for l > " + strconv.Itoa(r.Pick(8, 11)) + " only up to 10 structured subsets per (l,k) are run, not all 2^l")
+	r.NotExhaustive("declared sub-alphabet: for l > " + strconv.Itoa(r.Pick(8, 12)) + " only up to 10 structured subsets per (l,k) are run, not all 2^l")
 	r.Set("max_l", maxL)
 	key := c17LoadKey(t, "rsa_1024")
 	var jobs []c17Job
